@@ -119,6 +119,7 @@ def gen_inputs(ctx):
     for Kb in bad:
         for route in ("ctor", "bytes", "str", "import"):
             out.append(("BadPointNode", {"K": B(Kb), "route": route}, ("node-non-point", route, Kb[1:] >= P.to_bytes(32, "big"))))
+    out.append(("FromPoint", {"n": 3}, ("from-point-foreign-curve",)))
     # wrong lengths 0..40 and around 65
     for n in list(range(0, 41)) + [63, 64, 66, 67]:
         if n == 33:
@@ -129,6 +130,8 @@ def gen_inputs(ctx):
 
 
 def describe(ev):
+    if ev["act"] == "FromPoint":
+        return "PublicKey.from_point(<points of other curves>)"
     if ev["act"] == "BadPointNode":
         return "public node (%s) with key %s.. that is not a curve point" % (ev["inp"]["route"], bytes(ev["inp"]["K"]).hex()[:18])
     i = ev["inp"]
